@@ -173,12 +173,95 @@ def sources_part(ctx, thorough):
     ctx.count(len(traces), sum(len(t) for t in traces))
 
 
+def dispatch_part(ctx, thorough):
+    """writer side: which adapter and codec a URL selects (spec/Dispatch.tla), over every (scheme, ext1, ext2, query)"""
+    from flow.record import RecordDescriptor, RecordReader, RecordWriter
+
+    ctx.design("Dispatch", "MC_Dispatch.cfg", "7 schemes x 8 container extensions x 6 codec extensions x query", workers=4)
+    if thorough:
+        ctx.sensitivity("Dispatch", "MC_Dispatch_dev.cfg", "choosing the adapter by the FIRST extension must violate CompressedByExtension", "CompressedByExtension", workers=4)
+    tmp = common.scratch("c11disp")
+    D = RecordDescriptor("t/disp", [("varint", "n"), ("string", "s")])
+    recs = [D(1, "one", _generated=gen.GEN), D(2, "two", _generated=gen.GEN)]
+    CLS = {"StreamWriter": "stream", "JsonfileWriter": "jsonfile", "CsvfileWriter": "csvfile", "AvroWriter": "avro", "LineWriter": "line", "TextWriter": "text"}
+    MAGIC = [(b"\x1f\x8b", "gzip"), (b"BZh", "bz2"), (b"\x04\x22\x4d\x18", "lz4"), (b"\x28\xb5\x2f\xfd", "zstd")]
+
+    def sniff(plain):
+        if plain[6:19] == b"RECORDSTREAM\n":
+            return "stream"
+        if plain[:4] == b"Obj\x01":
+            return "avro"
+        text = plain.decode("utf-8", "replace")
+        if text.startswith("--[ RECORD 1 ]--"):
+            return "line"
+        if text.startswith("<t/disp "):
+            return "text"
+        lines = text.splitlines()
+        try:
+            if lines and all(isinstance(json.loads(l), dict) for l in lines):
+                return "json"
+        except Exception:
+            pass
+        if lines and lines[0].startswith("n,s,_source"):
+            return "csv"
+        return "unknown"
+
+    cases = []
+    for s in ["none", "stream", "jsonfile", "csvfile", "avro", "line", "text"]:
+        for e1 in ["", ".records", ".json", ".jsonl", ".csv", ".avro", ".txt", ".rec"]:
+            for e2 in ["", ".gz", ".bz2", ".lz4", ".zst", ".zstd"]:
+                for q in ("none", "plain"):
+                    if q == "plain" and not thorough and (len(e1) + len(e2)) % 2:
+                        continue
+                    for f in os.listdir(tmp):
+                        os.remove(os.path.join(tmp, f))
+                    fname = "out" + e1 + e2
+                    path = os.path.join(tmp, fname)
+                    url = ("" if s == "none" else s + "://") + path + ("?unusedarg=1" if q == "plain" else "")
+                    c = {"s": s, "e1": e1, "e2": e2, "q": q, "raised": False, "exc": "none", "adapter": "?", "file_ok": False, "codec": "?", "container": "?", "readback_checked": False, "readback_ok": True}
+                    try:
+                        w = RecordWriter(url)
+                        c["adapter"] = CLS.get(type(w).__name__, type(w).__name__)
+                        for r in recs:
+                            w.write(r)
+                        w.flush()
+                        w.close()
+                        c["file_ok"] = os.listdir(tmp) == [fname]
+                        blob = open(path, "rb").read()
+                        c["codec"] = next((name for m, name in MAGIC if blob.startswith(m)), "none")
+                        c["container"] = sniff(std_decompress(c["codec"], blob))
+                        if c["adapter"] in ("stream", "jsonfile", "avro", "csvfile"):
+                            c["readback_checked"] = True
+                            back = list(RecordReader(url))
+                            c["readback_ok"] = [(str(r.n), str(r.s)) for r in back] == [("1", "one"), ("2", "two")]
+                    except Exception as e:
+                        c["raised"], c["exc"] = True, type(e).__name__ + ":" + str(e)[:80]
+                    cases.append(c)
+                    ctx.case(("dispatch", s, e1, e2, q))
+    path = os.path.join(common.scratch("c11dispt"), "cases.json")
+    tlc.write_json(path, cases)
+    r = ctx.tlc("Trace_Dispatch", "Trace_Dispatch.cfg", f"{len(cases)} writer URLs", env={"TRACE_FILE": path}, workers=4)
+    seen = set()
+    for v in r.violations:
+        cid = v["state"].get("cid")
+        if cid is None:
+            raise common.MachineryError(f"cannot attribute counter-example: {v}")
+        if cid in seen:
+            continue
+        seen.add(cid)
+        c = cases[cid - 1]
+        ctx.violation({"check": "dispatch", "scheme": c["s"], "ext1": c["e1"], "ext2": c["e2"], "query": c["q"], "adapter": c["adapter"], "codec": c["codec"], "container": c["container"],
+                       "raised": c["raised"]}, {"case": c})
+    ctx.count(len(cases), len(cases))
+
+
 def run(tier):
     from flow.record import RecordDescriptor, RecordReader, RecordWriter
 
     ctx = check.Ctx(PROP, tier)
     thorough = tier == "thorough"
     sources_part(ctx, thorough)
+    dispatch_part(ctx, thorough)
     ctx.design("Detect", "MC_Detect.cfg", "full matrix: 5 codecs x 6 containers x 3 namings x 5 peek lengths", workers=4)
     ctx.sensitivity("Detect", "MC_Detect_shortpeek.cfg", "a first peek shorter than the codec magic breaks 'always recognised'", "AlwaysRecognised", workers=4)
     tmp = common.scratch("c11")
